@@ -33,6 +33,10 @@ def sty(v):
 
 # findings of this property that are not (yet) in known_findings.json — JSON entries in notes/NOTES-C02FE.md
 LOCAL_FINDINGS = {
+    "C02.stepwise_dead_branch_typed_from_value": "a program that compiles and runs without error as one unit is rejected when fed one statement at a time: "
+                                                 "a never-executed statement whose operand is opaque to the parser (result of a function declared `return undefined`) "
+                                                 "is accepted as one unit, but statement by statement the symbol carries the type of the value stored meanwhile and "
+                                                 "the same statement is a TYPE_MISMATCH",
     "C02.safety_table_major_changes": "a `$`-qualified table variable (and a protected table iterator) can change its major type: "
                                       "Symbol::check_safety accepts any table for a table symbol, so `$t = tab(2, 1); $t = tab(1, \"a\");` "
                                       "turns a table of integers into a table of strings (manual: the type of a $NAME cannot change)",
@@ -107,7 +111,8 @@ class C02(ProgCheck):
             cases.append(c)
             n += 1
             src = c.meta["src"]
-            cases.append(Case("c%d" % n, c.model_line, "|".join(["new 0", "step 0 " + hx(src), "out 0", "dump 0"]),
+            # the model predicts the statement-at-a-time run itself (`srcstep`: Stepwise.runStepwise on the source text)
+            cases.append(Case("c%d" % n, "srcstep %d %s" % (self.fuel, hx(src)), "|".join(["new 0", "step 0 " + hx(src), "out 0", "dump 0"]),
                               {"family": "stepwise", "src": src, "ast": prog}))
             # (d) front end: the SAME text through Lex -> Parse -> Elab -> runProgram (judged after its S-expression twin)
             n += 1
@@ -125,6 +130,25 @@ class C02(ProgCheck):
             cases.append(c)
             n += 1
             cases.append(fe.fe_case(self, "c%d" % n, c.meta["src"], {"family": "fe-tables", "twin": True, "ast": prog}))
+        # (b'') the excluded region of stepwise_eq_batch: a dead branch typed opaque as one unit, typed from the VALUE statement by statement
+        rets = [("i0", "1"), ("s0", '"s"'), ("b0", "true"), ("d0", "2.5"), ("?0", "null")]
+        deads = ['y = x + "a";', "y = x and true;", "y = x & 1;", "y = -x;", "y = x * 2;", "y = not x;", "y = x < 1;", "y = strlen(x);", "y = x;"]
+        for (rt, rl), dead in itertools.product(rets, deads):
+            for guard, endk in (("if false then", "end if;"), ("while false loop", "end loop;")):
+                src = "function f() return undefined is\nbegin\n  return %s;\nend;\nx = f();\n%s\n  %s\n%s\nprint 7;\n" % (rl, guard, dead, endk)
+                n += 1
+                cases.append(fe.fe_case(self, "c%d" % n, src, {"family": "fe-dead", "dead": (rt, dead)}))
+                n += 1
+                cases.append(Case("c%d" % n, "srcstep %d %s" % (self.fuel, hx(src)), "|".join(["new 0", "step 0 " + hx(src), "out 0", "dump 0"]),
+                                  {"family": "fe-dead-step", "src": src, "dead": (rt, dead)}))
+        # (d''') hand-enumerated texts: every PStmt / PExpr constructor and lexical form the generator never writes, as one unit and
+        # statement by statement
+        for tag, src in fe.HAND_TEXTS:
+            n += 1
+            cases.append(fe.fe_case(self, "c%d" % n, src, {"family": "fe-hand", "tag": tag}, fuel=20000))
+            n += 1
+            cases.append(Case("c%d" % n, "srcstep 20000 %s" % hx(src), "|".join(["new 0", "step 0 " + hx(src), "out 0", "dump 0"]),
+                              {"family": "fe-hand-step", "src": src, "tag": tag}))
         # (e) constraint flags through the front end + Model/Safety.lean: `$` variables, for / forall iterators
         for (ta, la), (tb, lb) in itertools.product(fe.SAFE_LITS, fe.SAFE_LITS):
             n += 1
@@ -293,8 +317,50 @@ class C02(ProgCheck):
             if not fe.same_kind(a, b):
                 return self.record_violation("`$q` of type %s accepted a value of type %s at run time" % (a, b), c, outcome, m)
             return
+        if fam == "fe-dead-step":
+            st = fe.fe_init(self)
+            st["by_family"][fam] = st["by_family"].get(fam, 0) + 1
+            before = len(self.violations)
+            ProgCheck.judge(self, c, iraw, m, stderr)
+            if len(self.violations) > before:
+                return
+            outcome, out, dump = self.split_impl(c, iraw)
+            batch = getattr(self, "_dead_batch", {}).get(c.meta["src"])
+            d = st.setdefault("dead_branch", {"batch_ok_step_ok": 0, "batch_ok_step_rejected": 0, "other": 0})
+            if batch == "ok-" and outcome == "ok-":
+                d["batch_ok_step_ok"] += 1
+            elif batch == "ok-" and (outcome or "").startswith("perr"):
+                d["batch_ok_step_rejected"] += 1
+                kf = "C02.stepwise_dead_branch_typed_from_value"
+                self.known_hits.setdefault(kf, {"what": LOCAL_FINDINGS[kf], "example": c.meta["src"].replace("\n", " "), "impl": "as one unit ok-, statement by statement " + outcome})
+            else:
+                d["other"] += 1
+            return
+        if fam == "fe-hand-step":
+            # statement-at-a-time: the interactive parser reads and runs statement by statement, so a later syntax error does
+            # not prevent the earlier statements from running; the model front end parses the whole text first
+            st = fe.fe_init(self)
+            st["by_family"][fam] = st["by_family"].get(fam, 0) + 1
+            mout = m.get("model") or ""
+            head = mout.split(" out=")[0]
+            d = st.setdefault("hand_step", {})
+            if head == "unsupported" or (fe.perr_code(head) is not None and head.split()[1] not in ("11", "2", "33", "15", "16")):
+                d["not-compared (unsupported or whole-text syntax error)"] = d.get("not-compared (unsupported or whole-text syntax error)", 0) + 1
+                return
+            d["compared"] = d.get("compared", 0) + 1
+            return ProgCheck.judge(self, c, iraw, m, stderr)
         before = len(self.violations)
         fe.judge_fe(self, lambda c2, i2, m2, s2: ProgCheck.judge(self, c2, i2, m2, s2), c, iraw, m, stderr)
+        if fam == "fe-hand":
+            st = fe.fe_init(self)
+            mout = m.get("model") or ""
+            st.setdefault("hand_outcomes", {})[c.meta["tag"]] = (mout.split(" out=")[0] + (" (" + m.get("note", "") + ")" if mout.startswith("unsupported") else ""))[:60]
+            return
+        if fam == "fe-dead":
+            if not hasattr(self, "_dead_batch"):
+                self._dead_batch = {}
+            self._dead_batch[c.meta["src"]] = self.split_impl(c, iraw)[0]
+            return
         if len(self.violations) > before or fam not in ("fe-safety", "fe-iter", "fe-forall", "fe-iter-dead"):
             return
         # the property, on the library's own answer: while the constraint is active the kind cannot change
